@@ -27,6 +27,7 @@ class TlcResult:
     notes: list = field(default_factory=list)        # other PrintT tuples
     coverage: dict = field(default_factory=dict)     # action -> (distinct, total)
     violated: str | None = None                      # invariant / property name
+    init_states: int = 0
 
     @property
     def ok(self) -> bool:
@@ -37,7 +38,8 @@ _STATS = re.compile(r"(\d+) states generated, (\d+) distinct states found")
 _DEPTH = re.compile(r"depth of the complete state graph search is (\d+)")
 _MIS = re.compile(r'<<"MISMATCH", (-?\d+), "([^"]*)"(?:, "([^"]*)")?>>')
 _NOTE = re.compile(r'<<"(NOTE|UNSETTLED|INFO)", (.*)>>')
-_COV = re.compile(r"<(\w+) line \d+, col \d+ to line \d+, col \d+ of module (\w+)>: (\d+):(\d+)")
+_COV = re.compile(r"<(\w+) line \d+, col \d+ to line \d+, col \d+ of module (\w+)(?: \([\d ]+\))?>: (\d+):(\d+)")
+_INIT = re.compile(r"Finished computing initial states: (\d+) distinct state")
 _INV = re.compile(r"Invariant (\w+) is violated|Action property (\w+) is violated|Temporal properties were violated")
 
 
@@ -73,7 +75,12 @@ def run_tlc(module: str, cfg: Path, meta: Path, env: dict | None = None, workers
     for m in _NOTE.finditer(res.out):
         res.notes.append((m.group(1), m.group(2)))
     for m in _COV.finditer(res.out):
-        res.coverage[m.group(1)] = (int(m.group(3)), int(m.group(4)))
+        name = m.group(1)
+        prev = res.coverage.get(name, (0, 0))
+        res.coverage[name] = (prev[0] + int(m.group(3)), prev[1] + int(m.group(4)))
+    m = _INIT.search(res.out)
+    if m:
+        res.init_states = int(m.group(1))
     m = _INV.search(res.out)
     if m:
         res.violated = m.group(1) or m.group(2) or "temporal"
